@@ -41,7 +41,7 @@ func c11Specs() []built {
 			for tgt := 0; tgt < 2; tgt++ {
 				calls := []C{
 					attrsOn([]string{"href", "title"}, "", "a", "area", "link"),
-					{Op: "AllowURLSchemes", Names: []string{"http", "https", "mailto"}},
+					{Op: "AllowURLSchemes", Names: []string{"http", "https", "mailto", "ftp"}},
 					opt("AllowRelativeURLs", true),
 				}
 				switch rel {
@@ -73,7 +73,7 @@ func c11Specs() []built {
 	}
 	for ti, tg := range toggles {
 		for rel := 0; rel < 2; rel++ {
-			calls := []C{attrsOn([]string{"href", "title", "target"}, "", "a", "area", "link"), {Op: "AllowURLSchemes", Names: []string{"http", "https", "mailto"}}, opt("AllowRelativeURLs", true)}
+			calls := []C{attrsOn([]string{"href", "title", "target"}, "", "a", "area", "link"), {Op: "AllowURLSchemes", Names: []string{"http", "https", "mailto", "ftp"}}, opt("AllowRelativeURLs", true)}
 			if rel == 1 {
 				calls = append(calls, attrsOn([]string{"rel"}, "", "a", "area", "link"))
 			}
@@ -86,10 +86,10 @@ func c11Specs() []built {
 }
 
 // hrefHasHost: does a browser resolve v (as written in the output) to a URL with a host of its own? For the special
-// schemes http / https the slashes are optional for a browser ("https:e.x/p" and "http:/e.x" name the host e.x).
+// schemes (http, https, ftp, ws, wss) the slashes are optional for a browser ("https:e.x/p" and "http:/e.x" name the host e.x).
 func hrefHasHost(v string) bool {
 	s := strings.ToLower(v)
-	for _, p := range []string{"http:", "https:"} {
+	for _, p := range []string{"http:", "https:", "ftp:", "ws:", "wss:"} {
 		if strings.HasPrefix(s, p) {
 			return strings.Trim(s[len(p):], "/\\") != ""
 		}
